@@ -4,7 +4,7 @@ import ast
 from ..core import AnalysisError, dotted, call_name, src, walk_local, const_value
 from ..flow import edge_facts, leaves, linear, Lin
 from ..rules import (flow_of, state_writes, facts_at, calls_in, bind_args, canon, cmp_norm, mutating_calls,
-                     collect_list, resolve_prop)
+                     collect_list, resolve_prop, is_evse_at, visits_all_stations)
 from ..nullflow import EVSE_EV, key_of
 
 EXPLANATION = ("Static rules over models/evse.py and the info cache of charging_network.py: set_pilot stores the pilot and "
@@ -346,8 +346,8 @@ def rule_cache(ck, rid="C13.R6"):
             for elt, it in elems:
                 attrs = [a for a in ast.walk(elt) if isinstance(a, ast.Attribute) and a.attr in set(CACHE.values())]
                 srcs = {a.attr for a in attrs}
-                recv_ok = all(canon(a.value).startswith("self._EVSEs[") for a in attrs)
-                order_ok = it is not None and canon(it) in ("self.station_ids", "self._EVSEs", "self._EVSEs.keys()")
+                recv_ok = all(is_evse_at(canon(a.value)) for a in attrs)
+                order_ok = it is not None and visits_all_stations(it)
                 if srcs != {prop}:
                     good, why = False, f"built from {sorted(srcs) or src(elt)} instead of .{prop}"
                 elif not recv_ok:
